@@ -74,6 +74,7 @@ def flat_index_ok(idx, rows_pred):
 
 def run(ctx: Ctx):
     cls = ctx.repo.get_class(DEC, "BeamSearch")
+    ctor_forwards(ctx, cls)
     # ---------------- _make_beam_step
     fi, it, fr = analyse(ctx, cls, "_make_beam_step")
     # the intermediate values are recovered from the outputs (returned pair, beam_path.append, parent_beam_logprobs), not by local names
@@ -239,6 +240,42 @@ def run(ctx: Ctx):
 def e_is_attr(e, name):
     b = e.data[0]
     return b.op == "selfattr" and b.args[0] == name
+
+
+def ctor_forwards(ctx: Ctx, cls):
+    """C13.f the beams are ranked and reported under the policy's own step distribution: BeamSearch.__init__ hands its decoding
+    options (temperature, top-k / top-p, tanh clipping, masking) to DecodingStrategy.__init__ unchanged.  It may ADD options
+    (store_all_logp) but must not remove or overwrite one the caller configured."""
+    import ast
+    fi = cls.methods.get("__init__")
+    if fi is None:
+        raise AnalysisError("BeamSearch.__init__ not found")
+    ctx.fn(fi)
+    kwname = fi.node.args.kwarg.arg if fi.node.args.kwarg else None
+    if kwname is None:
+        raise AnalysisError("BeamSearch.__init__ has no **kwargs to forward")
+    OPTIONS = {"temperature", "top_p", "top_k", "mask", "mask_logits", "tanh_clipping", "num_starts", "multistart", "multisample", "num_samples", "select_start_nodes_fn"}
+    removed, overwritten, forwarded = [], [], False
+    for n in ast.walk(fi.node):
+        if isinstance(n, ast.Call) and isinstance(n.func, ast.Attribute) and isinstance(n.func.value, ast.Name) and n.func.value.id == kwname \
+                and n.func.attr in ("pop", "clear", "popitem"):
+            removed.append(ast.unparse(n))
+        if isinstance(n, ast.Delete):
+            for t in n.targets:
+                if isinstance(t, ast.Subscript) and isinstance(t.value, ast.Name) and t.value.id == kwname:
+                    removed.append(ast.unparse(n))
+        if isinstance(n, ast.Assign):
+            for t in n.targets:
+                if isinstance(t, ast.Subscript) and isinstance(t.value, ast.Name) and t.value.id == kwname and isinstance(t.slice, ast.Constant) and t.slice.value in OPTIONS:
+                    overwritten.append(ast.unparse(n))
+                if isinstance(t, ast.Name) and t.id == kwname:
+                    overwritten.append(ast.unparse(n)[:60])
+        if isinstance(n, ast.Call) and isinstance(n.func, ast.Attribute) and n.func.attr == "__init__" and isinstance(n.func.value, ast.Call) and getattr(n.func.value.func, "id", "") == "super":
+            forwarded = any(k.arg is None and isinstance(k.value, ast.Name) and k.value.id == kwname for k in n.keywords)
+    ok = forwarded and not removed and not overwritten
+    ctx.ob("C13.f", "BeamSearch.__init__:options-forwarded", ok, fi.loc,
+           f"super().__init__(**{kwname}) receives the caller's decoding options unchanged" if ok else
+           f"decoding options are not forwarded unchanged: forwarded {forwarded}, removed {removed}, overwritten {overwritten}", construct="BeamSearch.__init__:forward-options")
 
 
 def run_thorough(ctx: Ctx):
